@@ -145,6 +145,8 @@ class Ex:
                 return ("const", k["str"])
             if "fn" in k:
                 return ("const", "fn " + k["fn"]["n"])
+            if "constparam" in k:
+                return ("constparam", k["constparam"])
             if "uneval" in k:
                 return ("const", "const " + k["uneval"])
             return ("const", None)
@@ -162,7 +164,9 @@ class Ex:
         return self.operand(t["d"]), t
 
 
-_OPS = {"Add": lambda a, b: a + b, "Sub": lambda a, b: a - b, "Mul": lambda a, b: a * b,
+_OPS = {"Eq": lambda a, b: int(a == b), "Ne": lambda a, b: int(a != b), "Lt": lambda a, b: int(a < b),
+        "Le": lambda a, b: int(a <= b), "Gt": lambda a, b: int(a > b), "Ge": lambda a, b: int(a >= b),
+        "Add": lambda a, b: a + b, "Sub": lambda a, b: a - b, "Mul": lambda a, b: a * b,
         "BitAnd": lambda a, b: a & b, "BitOr": lambda a, b: a | b, "Shl": lambda a, b: a << b,
         "Shr": lambda a, b: a >> b}
 
@@ -207,6 +211,8 @@ def show(e, depth=0):
     k = e[0]
     if k == "const":
         return repr(e[1]) if not isinstance(e[1], int) else ("0x%X" % e[1] if e[1] > 9 else str(e[1]))
+    if k == "constparam":
+        return e[1]
     if k == "path":
         return ".".join((e[1],) + e[2])
     if k == "var":
